@@ -821,7 +821,7 @@ func init() {
 // before (also: the very same directory, unchanged on disk, loaded a second time).
 type reloadCase struct {
 	Name  string   `json:"reload"`
-	Loads []string `json:"loads"` // base directories, in order ("set:<k>=<v>" = a direct Set in between)
+	Loads []string `json:"loads"` // base directories, in order ("set:<k>=<v>" = a direct Set, "probe:<k>" = a Translate in between)
 }
 
 var reloadFiles = map[string]string{
@@ -838,6 +838,10 @@ func reloadCases() []reloadCase {
 		{"base-set-base", []string{"base/", "set:title=Changed by hand", "set:pl.menu.exit=X", "base/"}},
 		{"base-base", []string{"base/", "base/"}},
 		{"base-theme-base-theme", []string{"base/", "theme/", "base/", "theme/"}},
+		// keys asked for BEFORE the load that brings them (a page rendered early): the answers of then say
+		// nothing about the store after the load
+		{"probe-base", []string{"probe:title", "probe:menu.home", "probe:pl.menu.exit", "probe:menu", "base/"}},
+		{"base-probe-theme", []string{"base/", "probe:only.theme", "probe:title", "probe:menu.exit", "theme/"}},
 	}
 }
 
@@ -861,6 +865,12 @@ func runReload(rc reloadCase) (f *finding) {
 			if strings.HasPrefix(l, "set:") {
 				kv := strings.SplitN(strings.TrimPrefix(l, "set:"), "=", 2)
 				i18.Set(map[string]string{kv[0]: kv[1]})
+				continue
+			}
+			if strings.HasPrefix(l, "probe:") {
+				k := strings.TrimPrefix(l, "probe:")
+				i18.Translate(k)
+				i18.Translate(k, "arg")
 				continue
 			}
 			if err := fsi18loader.Load(fs, l, i18, nil); err != nil {
